@@ -2564,7 +2564,7 @@ spmatrix * SpMatrix_NewFromSpMatrix(spmatrix *A, int id)
   spmatrix *ret = SpMatrix_New
       (SP_NROWS(A), SP_NCOLS(A), SP_NNZ(A), id);
 
-  if (!ret) NULL;
+  if (!ret) return NULL;
 
   convert_array(SP_VAL(ret), SP_VAL(A), id, SP_ID(A), SP_NNZ(A));
   memcpy(SP_COL(ret), SP_COL(A), (SP_NCOLS(A)+1)*sizeof(int_t));
@@ -3048,7 +3048,7 @@ static PyObject * spmatrix_imag(spmatrix *self) {
 
   if (SP_ID(self) != COMPLEX) {
     spmatrix *ret = SpMatrix_New(SP_NROWS(self), SP_NCOLS(self), 0, SP_ID(self));
-    if (!ret) NULL;
+    if (!ret) return NULL;
     return (PyObject *)ret;
   }
 
